@@ -178,8 +178,9 @@ MANIFEST_TEXT['C06'] = {'technique': 'runtime monitoring: store/load on exact-si
 PROPS['C10'] = {
     'level': 'exploration',
     'exhaustive_possible': True,
-    'runs': [{'name': 'asan', 'flavour': 'asan', 'driver': 'drv_c10'}],
-    'require': {'default.cells_ok': 32, 'enable.return_ok': 6000, 'cell.load.OK': 1000, 'cell.load.ERR_UNSUPPORTED': 1000, 'cell.decode.ERR_UNSUPPORTED': 1000,
+    'runs': [{'name': 'asan', 'flavour': 'asan', 'driver': 'drv_c10'},
+             {'name': 'asan-dbg', 'flavour': 'asan-dbg', 'driver': 'drv_c10', 'env': {'PV_SCALE': '25'}, 'shards': 6}],
+    'require': {'default.cells_ok': 32, 'matrix.cells_with_reinjection': 1500, 'history.reinjections': 1000, 'enable.return_ok': 6000, 'cell.load.OK': 1000, 'cell.load.ERR_UNSUPPORTED': 1000, 'cell.decode.ERR_UNSUPPORTED': 1000,
                 'cell.decode_explicit.ERR_UNSUPPORTED': 1000, 'cell.create.ERR_UNSUPPORTED': 500, 'cell.create.OK': 500, 'getters.checked': 5000, 'history.creates_ok': 5000},
 }
 MANIFEST_TEXT['C10'] = {'technique': 'runtime monitoring: exhaustive argument x feature-value x entry-point matrix through the API vs model (ASan/UBSan)',
@@ -213,7 +214,8 @@ PROPS['C09'] = {
     'level': 'exploration',
     'runs': [{'name': 'asan', 'flavour': 'asan', 'driver': 'drv_c09', 'timeout': 1800}],
     'require': {'outcome.NUM_WORDS': 1000, 'outcome.LANG': 1000, 'outcome.MULT_LANG': 1000, 'outcome.unique.OK': 1000, 'outcome.unique.ERR_CHECKSUM': 1000, 'outcome.unique.ERR_UNSUPPORTED': 1000,
-                'armed.auto.ERR_MEMORY': 1000, 'armed.memory_before_unsupported': 300, 'armed.checksum_before_memory': 300, 'ambiguous.constructed': 500},
+                'armed.auto.ERR_MEMORY': 1000, 'armed.memory_before_unsupported': 300, 'armed.checksum_before_memory': 300, 'ambiguous.constructed': 500,
+                'multi3.constructed': 500, 'multi3.phrases_recognised_by_3_languages': 200},
 }
 MANIFEST_TEXT['C09'] = {'technique': 'runtime monitoring: relation between the library\'s two decoders on the same input (1 auto + 10 explicit decodes per string), model token count, armed allocator for precedence (ASan/UBSan)',
     'text': 'For grammar-generated strings (all edit classes, all languages, ambiguous phrases for every overlapping language pair, multi-fault phrases) the automatic decoder is compared with the set of explicit results: NUM_WORDS iff the model token count differs from 16, LANG iff no language recognises all tokens, MULT_LANG iff two or more do (regardless of checksum), else exactly the unique language\'s status, lang_out and seed; with the allocator armed to fail, word-count/language/checksum errors must still win and MEMORY must win over UNSUPPORTED.',
@@ -238,7 +240,7 @@ PROPS['C15'] = {
     'level': 'fault_enumeration',
     'exhaustive_possible': True,
     'runs': [{'name': 'asan-wrap', 'flavour': 'asan-wrap', 'driver': 'drv_c15', 'env': {'ASAN_OPTIONS': _LSAN}}],
-    'require': {'matrix.cases_ok': 500, 'faults.injected': 500, 'masks.enumerated': 2000, 'libc.seed_freed_once': 500, 'free_null.silent': 500,
+    'require': {'matrix.cases_ok': 500, 'matrix.cases_with_stale_out_pointer_and_address_reuse': 500, 'faults.injected': 500, 'masks.enumerated': 2000, 'libc.seed_freed_once': 500, 'free_null.silent': 500,
                 'matrix.cell.decode.UNSUPPORTED.fault-1(hit)': 10, 'matrix.cell.decode_explicit.UNSUPPORTED.fault-1(hit)': 10, 'matrix.cell.load.UNSUPPORTED.fault-1(hit)': 10,
                 'matrix.cell.decode.CHECKSUM.fault-1(not reached)': 10, 'matrix.cell.decode.MULT_LANG.fault-1(not reached)': 5, 'matrix.cell.load.FORMAT.fault-1(hit)': 10},
 }
